@@ -155,7 +155,8 @@ CLAIMED = {
         'Trusted: TLC; the mock transport and scripted broker (frame log = what the server sent); hook placement (frame before dispatch, chanmsg after pull; one global mutex orders the trace); hang limit 5 s / 20 s. Scenario inputs are seeded-random (Python generators), not exhaustive; the exhaustive part is the model checking of the same operators. ',
         'DESIGN.md §4 C13'),
     "C02": (
-        "TLC model checking of Chunks.tla (chunk arithmetic, sending-loop model with bug switch) + TLC-generated "
+        "TLC model checking of Chunks.tla (chunk arithmetic, sending-loop model with bug switch) + inductive "
+        "invariant of the step-wise loop ChunksInd.tla discharged by Apalache for every L >= 0, P >= 1 + TLC-generated "
         "boundary classes published through the real API + TLC trace validation of every client frame at the broker",
         "TLC proves for all L in 0..3P+1, P in 1..5 (thorough 40) that the chunk lengths sum to L, lie in 1..P, are "
         "absent for L=0 and only the last is short, that the implementation-shaped loop produces them and that the "
